@@ -111,9 +111,12 @@ def component(ctx, rng, n_cases, sl):
         # DE / SHADE generations with identical RNG and a mirrored objective
         finite = np.isfinite(f).all()
         if finite:
+            # in a part of the cases the objective is undefined (NaN) on a half-space: NaN is a legal value, a
+            # NaN trial never replaces its parent — on either formulation
+            hole = float(np.median(X[:, 0])) if rng.random() < 0.4 else None
             for eng in ("de", "ded", "shade"):
                 def mk(sign, prob):
-                    prob.fitness_function = lambda x, s=sign: s * float(np.floor(np.sum(np.asarray(x) ** 2)))
+                    prob.fitness_function = lambda x, s=sign: (float("nan") if (hole is not None and x[0] > hole) else s * float(np.floor(np.sum(np.asarray(x) ** 2))))
                     inds = [Individual(X[i].copy(), prob) for i in range(n)]
                     for i in inds:
                         i.evaluate()
@@ -126,7 +129,7 @@ def component(ctx, rng, n_cases, sl):
                     ia = ea.run(ia)
                     np.random.seed(s0 + g)
                     ib = eb.run(ib)
-                    if genomes(ia) != genomes(ib) or [i.fitness for i in ia] != [-i.fitness for i in ib]:
+                    if genomes(ia) != genomes(ib) or [repr(float(i.fitness)) for i in ia] != [repr(float(-i.fitness)) for i in ib]:
                         bad("C13/" + eng, f"{eng}: generation {g+1} differs between (f,max) and (-f,min) with the same random state")
                         break
                 sl.count(eng)
